@@ -269,8 +269,32 @@ class Walker:
                     stack.pop()
         return stack
 
+    def is_name_expr(self, c):
+        """`key | id` or `"…{}".format(key) | ln.c.macrofy`: the expression that spells an option's name in generated code."""
+        N = self.N
+        if not isinstance(c, N.Filter) or c.name not in ("id", "ln.c.macrofy", "macrofy"):
+            return False
+        return any(isinstance(x, N.Name) and x.name == "key" for x in c.find_all(N.Name))
+
     def check_output(self, out, guards, fname, tree, loop):
         N = self.N
+        has_site = any(not isinstance(c, N.TemplateData) and has_value_filter(c, N) for c in out.nodes)
+        if not has_site and loop is not None and loop["iter"] == "options.items()":
+            # a statement of the options loop that spells an option's name without its encoded value (e.g. a definition of
+            # another type, an `#undef`): part of what the guard compiles to, outside the model
+            for i, c in enumerate(out.nodes):
+                if not isinstance(c, N.TemplateData) and self.is_name_expr(c):
+                    before = "".join(x.data for x in out.nodes[:i] if isinstance(x, N.TemplateData)).split("\n")[-1] if i else ""
+                    k = i + 1
+                    after = ""
+                    while k < len(out.nodes) and isinstance(out.nodes[k], N.TemplateData):
+                        after += out.nodes[k].data
+                        k += 1
+                    self.sites.append({"file": fname, "loopOver": loop["iter"], "loopVars": loop["vars"],
+                                       "guards": self.cpp_guards(self.text_before(tree, out, i)) + list(guards),
+                                       "nameExpr": ("other", src(c, N)), "valueExpr": ("other", "<none>"),
+                                       "form": ("other", f"{before}⟨N⟩{after.split(chr(10))[0]}")})
+            return
         for i, c in enumerate(out.nodes):
             if isinstance(c, N.TemplateData) or not has_value_filter(c, N):
                 continue
